@@ -70,13 +70,18 @@ func (C15) Gen(r *core.Rng, tier string, emit func(string)) {
 			ic = pmtiles.NoCompression
 		}
 		pad := r.Chance(1, 4)
-		nkinds := 26
+		nkinds := 27
 		for kind := 0; kind < nkinds; kind++ {
 			if kind > 0 && tier != "thorough" && r.Chance(1, 2) {
 				continue
 			}
 			es := append([]pmtiles.EntryV3{}, ts.entries...)
 			data := ts.data
+			origContents := -1 // set by kind 26: the header declares the distinct offsets of the UNshifted entries
+			distinctBefore := map[uint64]bool{}
+			for _, e := range es {
+				distinctBefore[e.Offset] = true
+			}
 			// entry-level corruptions happen before the tree is built
 			switch kind {
 			case 24, 25: // run lengths whose sum reaches 2^32 (consistent archive; kind 25 then corrupts the count by 2^32)
@@ -98,6 +103,22 @@ func (C15) Gen(r *core.Rng, tier string, emit func(string)) {
 					k := r.Intn(len(es) - 1)
 					es[k].Offset, es[k+1].Offset = es[k+1].Offset, es[k].Offset
 					es[k].Length, es[k+1].Length = es[k+1].Length, es[k].Length
+				}
+			case 26: // a LATER reference of a shared content is shifted by one byte, staying inside the data and below
+				// everything written so far; the header keeps the content count of the unshifted archive (below)
+				for k := len(es) - 1; k > 0; k-- {
+					dup := false
+					for j := 0; j < k; j++ {
+						if es[j].Offset == es[k].Offset {
+							dup = true
+						}
+					}
+					if dup && es[k].Length >= 2 {
+						es[k].Offset++
+						es[k].Length--
+						origContents = 0
+						break
+					}
 				}
 			case 20: // a duplicate reference (same offset) gets a different, too long length
 				for k := len(es) - 1; k > 0; k-- {
@@ -201,6 +222,10 @@ func (C15) Gen(r *core.Rng, tier string, emit func(string)) {
 				h.CenterZoom = h.MinZoom // boundary: still valid
 			case 25:
 				h.AddressedTilesCount -= 4294967296 // equal modulo 2^32: must be rejected
+			case 26:
+				if origContents == 0 {
+					h.TileContentsCount = uint64(len(distinctBefore))
+				}
 			}
 			if kind == 13 && h.LeafDirectoryOffset == 0 && len(dirs) > 1 {
 				continue // would change what the enumeration reads
